@@ -2062,4 +2062,162 @@ class C02(Oracle):
         return out
 
 
-ORACLES = {'C18': C18, 'C08': C08, 'C09': C09, 'C10': C10, 'C11': C11, 'C12': C12, 'C05': C05, 'C06': C06, 'C07': C07, 'C04': C04, 'C20': C20, 'C15': C15, 'C16': C16, 'C13': C13, 'C01': C01, 'C19': C19, 'C17': C17, 'C02': C02}
+class C03(Oracle):
+    prop = 'C03'
+
+    def gen(self, rng):
+        g = gen_env_cases(rng, p_random=0.35)
+        sg = gen_step_cases(rng, valid=True)
+        k = 0
+        while True:
+            k += 1
+            if k % 3 == 0:
+                c = next(sg)
+                c['kind'] = 'heapstep'
+                yield c
+            else:
+                c = next(g)
+                c['other_seed'] = rng.randrange(2**31)
+                yield c
+
+    def from_line(self, line):
+        t = line.split()
+        if len(t) < 3 or t[0] != 'heap':
+            return None
+        if t[1] in ('inplace', 'step'):
+            c = step_case_from_line(' '.join(['trans'] + t[2:]))
+            if c is None:
+                return None
+            c['kind'] = 'heapstep'
+            return c
+        if t[1] == 'obs':
+            st, j = dec_state(t, 2)
+            return {'kind': 'heapobs', 'state': ' '.join(t[2:j]), 'area': [int(x) for x in t[j : j + 4]], 'bits': t[j + 4]}
+        if t[1] == 'copy':
+            return {'kind': 'heapcopy', 'state': ' '.join(t[2:])}
+        return None
+
+    @staticmethod
+    def _mutable_ids(s):
+        from harness.corr_heap import name_nodes
+
+        return {id(n): nm for n, nm, _ in name_nodes(s)}
+
+    def _pure_call(self, out, what, where, s_list, f):
+        """run f; every state in s_list must hold the same contents, node by node, afterwards"""
+        from harness.corr_heap import name_nodes, snapshot
+
+        nodes = [name_nodes(s) for s in s_list]
+        before = [snapshot(n) for n in nodes]
+        encs = [enc_state(s) for s in s_list]
+        res = f()
+        for i, (n, b) in enumerate(zip(nodes, before)):
+            after = snapshot(n)
+            if after != b or enc_state(s_list[i]) != encs[i]:
+                ch = [nm for (_, nm, _), x, y in zip(n, b, after) if x != y]
+                out.append(V(f'{what}/modifies-argument', f'{where}: argument {i} nodes {ch[:6]}'))
+        return res
+
+    def _no_sharing(self, out, what, where, s, s2):
+        a, b = self._mutable_ids(s), self._mutable_ids(s2)
+        shared = sorted(a[i] for i in a.keys() & b.keys())
+        if shared:
+            out.append(V(f'{what}/shares-mutable-node', f'{where}: {shared[:6]}'))
+
+    def _copy(self, out, where, s):
+        c = self._pure_call(out, 'copy', where, [s], lambda: fast_copy(s))
+        if not (c == s) or enc_state(c) != enc_state(s):
+            out.append(V('copy/not-equal', where))
+        try:
+            if hash(c) != hash(s):
+                out.append(V('copy/hash-differs', where))
+        except TypeError:
+            pass
+        self._no_sharing(out, 'copy', where, s, c)
+
+    def check(self, c):
+        import numpy as np
+        from harness.recrng import ScriptRng
+        from gym_gridverse.envs import observation_functions as of
+        from gym_gridverse.envs import transition_functions as trf
+
+        out = []
+        if c['kind'] == 'heapstep':
+            s = state_from_str(c['state'])
+            a = ACTIONS[c['action']]
+            where = f'chain {[TRANS_NAMES[i] for i in c["atoms"]]} {c["state"]} action={a.name}'
+            chain = trf.factory('chain', transition_functions=[trf.factory(TRANS_NAMES[i]) for i in c['atoms']])
+            try:
+                s2 = self._pure_call(out, 'step', where, [s], lambda: trf.transition_with_copy(chain, s, a, rng=ScriptRng(c['answers'])))
+            except Exception:
+                return out
+            self._no_sharing(out, 'step', where, s, s2)
+            self._copy(out, where, s)
+            return out
+        if c['kind'] == 'heapobs':
+            s = state_from_str(c['state'])
+            y0, y1, x0, x1 = c['area']
+            area = Area((y0, y1), (x0, x1))
+            mask = np.array([ch == '1' for ch in c['bits']], dtype=bool).reshape(area.height, area.width)
+            where = f'from_visibility {c["state"]} {c["area"]}'
+            try:
+                self._pure_call(out, 'observation', where, [s], lambda: of.from_visibility(s, area=area, visibility_function=lambda g, p, rng=None: mask))
+            except Exception:
+                pass
+            return out
+        if c['kind'] == 'heapcopy':
+            self._copy(out, c['state'], state_from_str(c['state']))
+            return out
+        # environment trajectories through the functional interface
+        env, other = env_of_case(c), env_of_case(c)
+        name = c.get('file', 'random composition')
+        env.set_seed(c['seed'])
+        other.set_seed(c['other_seed'])
+        s = env.functional_reset()
+        so = other.functional_reset()
+        acts = env.action_space.actions
+        for k, ai in enumerate(c['actions']):
+            a = acts[ai % len(acts)]
+            where = f'{name} seed={c["seed"]} step {k} {a.name}'
+            keep = fast_copy(s)
+            env.set_seed(1000 + k)
+            try:
+                s2, r, d = self._pure_call(out, 'step', where, [s, so], lambda: env.functional_step(s, a))
+            except Exception:
+                return out
+            self._no_sharing(out, 'step', where, s, s2)
+            env.set_seed(2000 + k)
+            o = self._pure_call(out, 'observation', where, [s, s2], lambda: env.functional_observation(s))
+            self._pure_call(out, 'reward', where, [s, s2], lambda: env._reward_function(s, a, s2))
+            self._pure_call(out, 'termination', where, [s, s2], lambda: env._termination_function(s, a, s2))
+            # intervening calls on another environment and on the cached helpers
+            for _ in range(2):
+                so, _, do = other.functional_step(so, other.action_space.actions[(k + ai) % len(other.action_space.actions)])
+                other.functional_observation(so)
+                if do:
+                    so = other.functional_reset()
+            # the same questions again
+            env.set_seed(1000 + k)
+            s2b, rb, db = env.functional_step(s, a)
+            if enc_state(s2b) != enc_state(s2) or rb != r or db != d:
+                out.append(V('history/step-answer-changed', where))
+            env.set_seed(2000 + k)
+            ob = env.functional_observation(s)
+            if enc_state(ob) != enc_state(o):
+                out.append(V('history/observation-answer-changed', where))
+            if enc_state(keep) != enc_state(s):
+                out.append(V('step/modifies-argument', where + ' (after the whole round)'))
+            if k % 5 == 0:
+                self._copy(out, where, s)
+            # stepping on from the next state must not reach back into the earlier one
+            if k % 4 == 0:
+                env.functional_step(s2, a)
+                if enc_state(s) != enc_state(keep):
+                    out.append(V('step/later-step-modifies-earlier-state', where))
+            s = s2
+            if d:
+                s = env.functional_reset()
+        return out
+
+
+ORACLES = {'C18': C18, 'C08': C08, 'C09': C09, 'C10': C10, 'C11': C11, 'C12': C12, 'C05': C05, 'C06': C06, 'C07': C07, 'C04': C04, 'C20': C20, 'C15': C15, 'C16': C16, 'C13': C13, 'C01': C01, 'C19': C19, 'C17': C17, 'C02': C02, 'C03': C03}
